@@ -84,7 +84,7 @@ class C09(Check):
     shard_timeout = {"quick": 600, "thorough": 5400}
 
     def bpts(self, tier):
-        return [2.5] if tier == "quick" else [1.0, 2.5, 4.0]
+        return [2.5] if tier == "quick" else [2.5, 1.0]
 
     def bounds(self, tier):
         return {"bpt": self.bpts(tier), "max_pieces": 3, "decorations": [list(d) for d in (DECOR_QUICK if tier == "quick" else DECOR_FULL)]}
@@ -229,11 +229,13 @@ class C09(Check):
 
             return c03_cli.run_shard(self, shard, ctx, validate_only=True, extra=c03_cli.check_c09_files)
         bpt, chunk, chunks, tier = shard
-        full = tier == "thorough"
+        # thorough: all 9 input combinations, every per-piece tag assignment and the full decoration list (for
+        # <= 2 Pretext scaffolds) at 2.5 bp/texel; the quick scope again at 1 bp/texel
+        full = tier == "thorough" and bpt == 2.5
         e = err_len(bpt)
         decor = DECOR_FULL if full else DECOR_QUICK
         n = 0
-        for inp in inputs_for(bpt, tier):
+        for inp in inputs_for(bpt, tier if full else "quick"):
             big = pv.scaffold_length(inp[0][1])
             present = inp[:2]
             for pieces in pv.pv_piece_lists(present, bpt, max_cuts=1, max_pieces=3, min_pieces=2, margin=e + 2):
@@ -241,7 +243,7 @@ class C09(Check):
                 if sum(1 for p in pieces if p[0] != "scaffold_1") != 1:
                     continue
                 a_pieces = [p for p in pieces if p[0] == "scaffold_1"]
-                if len(a_pieces) == 2 and abs(a_pieces[0][2] - big // 2) > (2 * e + 2 if full else 2):
+                if len(a_pieces) == 2 and abs(a_pieces[0][2] - big // 2) > (e + 1 if full else 2):
                     continue
                 np_ = len(pieces)
                 for arr in pv.arrangements(np_, orientations=(1,)):
@@ -249,11 +251,9 @@ class C09(Check):
                     if n % chunks != chunk:
                         continue
                     variants = [arr]
-                    if full:
-                        variants.append(tuple(tuple((pi, -1) for pi, _ in grp) for grp in arr))
                     for arr2 in variants:
                         ng = len(arr2)
-                        for decs in itertools.product(decor, repeat=ng):
+                        for decs in itertools.product(decor if ng < 3 else DECOR_QUICK, repeat=ng):
                             for ptags in itertools.product(DESTRUCTIVE, repeat=np_):
                                 if not full and np_ == 3 and all(ptags):
                                     continue  # quick: at most two destructively tagged pieces
